@@ -10,7 +10,7 @@ META = {
     "note": "QuantumScript.shape does not exist at the pinned commit; jax_jit._result_shape_dtype_struct (the in-repo statement of a tape's result structure) is transcribed instead and is itself compared with the model. The device/interface/diff-method independence is NOT a theorem about PennyLane code: it is established only for the generated configurations of each run (tie K). Shot specifications are expanded in Python (expansion semantics are C44's subject). Counts dictionaries are opaque leaves (their key sets are not compared). Not covered: lightning devices (not installed), tensorflow, jax.jit tracing, mid-circuit-measurement statistics, classical shadows, entropy/purity/mutual-info measurements, Jacobians of state/density-matrix/sample outputs, second derivatives, Jacobians of broadcast tapes under parameter-shift (NotImplementedError in PennyLane), autograd/torch Jacobians of nested outputs (those frameworks cannot differentiate nested tuples). _jac_shape_dtype_struct is transcribed with its quirk (parameters outside the shot-copy tuple for one measurement with a shot vector, theorem jac_struct_quirk_refuted); that input is unreachable because device derivatives require analytic execution.",
     "assumptions": ["num_device_wires is part of the request (wire-less probs/sample/state use the device's wire count)",
                     "parameter arguments are dense arrays of fixed shape; exactly-one-parameter requests are passed unwrapped (argnums=0 / a single tensor)",
-                    "an exception raised for an unsupported combination is not a shape and is not compared (counted in coverage)"],
+                    "only configurations inside PennyLane's support matrix are generated (harness table valid_cfg, e.g. no backprop/adjoint with finite shots, adjoint on default.qubit only for expectation values); for those an exception counts as a mismatch with the model"],
     "trusted": ["hand-written model coq/Disc/ShapesModel.v tied to /repo by correspondence only",
                 "harness conversion of returned Python objects to shape trees (tuple/list -> Tup, dict -> Opaque, else numpy/torch shape)"],
 }
@@ -278,7 +278,7 @@ def gen_cases(ctx):
     q = ctx.tier == "quick"
     SLOW.update({"jax_res": 10, "jax_jac": 12, "mixedjax": 2, "jax_backprop": 2, "mixed_jac": 6} if q else
                 {"jax_res": 10 ** 6, "jax_jac": 10 ** 6, "mixedjax": 24, "jax_backprop": 24, "mixed_jac": 10 ** 6})
-    n_res, k_res = (32, 4) if q else (220, 7)
+    n_res, k_res = (28, 4) if q else (220, 7)
     n_jac, k_jac = (13, 4) if q else (90, 7)
     n_tj = 1 if q else 5
     n_batch = 6 if q else 40
@@ -363,12 +363,10 @@ def run(ctx):
         malformed = c["mode"] == "res" and c["req"]["shots"] is None and kinds_of(c["req"]) & {"sample", "sampleobs"}
         if is_err(o):
             hist["errors_by_type"][o] = hist["errors_by_type"].get(o, 0) + 1
-            if malformed:
-                hist["expected_rejections"] += 1
-                terms.append(f"({g_case(c)}, None)"); idx.append(i)
-            else:
-                hist["unexpected_errors"] += 1
-                ctx.notes.append(f"not compared (raised {o}): {json.dumps(c, sort_keys=True)}") if len(ctx.notes) < 12 else None
+            # a raised exception is compared with the model as "no structure": the model rejects exactly the
+            # malformed stream; configurations outside PennyLane's support matrix are never generated (valid_cfg)
+            hist["expected_rejections" if malformed else "unexpected_errors"] += 1
+            terms.append(f"({g_case(c)}, None)"); idx.append(i)
             continue
         for k, f in (("devices", "dev"), ("interfaces", "iface"), ("diff_methods", "diff")):
             if c["mode"] in ("res", "jac", "batch", "tapejac"):
